@@ -140,7 +140,8 @@ std::string gen_compound_arg(Rng& r, bool* is_null) {
   *is_null = false;
   int c = r.range(0, 99);
   if (c < 22) {
-    static const char* const pool[] = {"H2O", "SiO2", "Ca5(PO4)3F", "C6H12O6", "Fe2O3", "NaCl", "Pb", "CaCO3", "Al2O3", "(H2O)2", "Water, Liquid", "Air, Dry (near sea level)"};
+    static const char* const pool[] = {"H2O", "SiO2", "Ca5(PO4)3F", "C6H12O6", "Fe2O3", "NaCl", "Pb", "CaCO3", "Al2O3", "(H2O)2", "Water, Liquid", "Air, Dry (near sea level)",
+                                        "HCNOF", "NaMgAlSiPS", "HCNOFKCaTi", "LiBeBNeArKrXe", "FeCoNiCuZnGaGeAsSeBr", "C22H10N2O5"};
     return pool[r.below(sizeof pool / sizeof pool[0])];
   }
   if (c < 50) return gen_formula(r, 0);
@@ -221,6 +222,42 @@ Op gen_query_op_for(Rng& r, int id, int qi) {
   o.fn = q.name;
   fill_args(r, q, o);
   o.slot = r.chance(4, 5) ? 1 : 0;
+  return o;
+}
+
+// Focused workloads: a run concentrates on one to three entry points and on one value of their macro argument,
+// so that several tasks (or many ops of one history) hit the same rarely used path — e.g. the first use of a
+// lazily built table for one particular group-line macro — at the same time.
+void set_focus(Rng& r, GenCfg& cfg) {
+  cfg.nfocus = r.chance(1, 2) ? 1 : r.range(2, 3);
+  for (int j = 0; j < cfg.nfocus; j++) cfg.focus_q[j] = (int)r.below(g_nqueries);
+  if (r.chance(1, 3)) {
+    // the compound functions share the parser and whatever it caches: bias a third of the focused runs to them
+    int cand[64], n = 0;
+    for (int q = 0; q < g_nqueries && n < 64; q++) if (strchr(g_queries[q].shape, 's')) cand[n++] = q;
+    for (int j = 0; j < cfg.nfocus && n; j++) cfg.focus_q[j] = cand[r.below(n)];
+  }
+  cfg.focus_strings.clear();
+  int ns = r.range(3, 14);   // few enough to be shared between tasks, sometimes more than any small cache holds
+  for (int j = 0; j < ns; j++) { bool isnull; std::string f = gen_compound_arg(r, &isnull); if (!isnull) cfg.focus_strings.push_back(f); }
+  const QueryDef& q = g_queries[cfg.focus_q[0]];
+  cfg.focus_macro_set = false;
+  if (q.shape[0] == 'i' && q.shape[1] == 'i') {
+    const char* cls = q.cls[1] ? q.cls[1] : "";
+    cfg.focus_macro_set = true;
+    if (!strcmp(cls, "line")) cfg.focus_macro = r.chance(1, 2) ? r.range(0, 3) : -r.range(1, 383);
+    else if (!strcmp(cls, "trans")) cfg.focus_macro = r.range(0, 14);
+    else if (!strcmp(cls, "auger_trans")) cfg.focus_macro = r.range(0, 995);
+    else cfg.focus_macro = r.range(0, 30);
+  }
+}
+
+static Op gen_focus_op(Rng& r, int id, const GenCfg& cfg) {
+  Op o = gen_query_op_for(r, id, cfg.focus_q[r.below(cfg.nfocus)]);
+  const QueryDef* q = query_find(o.fn.c_str());
+  if (cfg.focus_macro_set && q && q->shape[0] == 'i' && q->shape[1] == 'i' && r.chance(1, 2)) o.i[1] = cfg.focus_macro;
+  if (q && strchr(q->shape, 's') && !cfg.focus_strings.empty() && r.chance(7, 10)) { o.s = cfg.focus_strings[r.below(cfg.focus_strings.size())]; o.snull = false; }
+  if (r.chance(3, 4) && o.i[0] > 120) o.i[0] = r.range(1, 98);
   return o;
 }
 
@@ -608,7 +645,9 @@ void gen_history(Rng& r, const GenCfg& cfg, std::vector<Op>& out, int& next_id, 
       ops.push_back(o);
       continue;
     }
-    if (c < wq) {
+    if (cfg.nfocus > 0 && r.chance(3, 5)) {
+      o = gen_focus_op(r, id, cfg);
+    } else if (c < wq) {
       o = gen_query_op(r, id);
       if (r.chance(1, 6)) o.keep = 1;
     } else if (c < wq + wa) {
@@ -619,6 +658,16 @@ void gen_history(Rng& r, const GenCfg& cfg, std::vector<Op>& out, int& next_id, 
       else if (a < 27) {
         o.kind = OK_ADDCD; o.h[0] = st.pick(r, HT_COMPOUND, true); o.h[1] = st.pick(r, HT_COMPOUND, true);
         o.d[0] = r.unit(); o.d[1] = r.unit();
+        if (r.chance(1, 3)) {
+          // two fresh many-element, (nearly) disjoint compounds: the union grows several times
+          static const char* const big[] = {"HCNOF", "NaMgAlSiPS", "HCNOFKCaTi", "LiBeBNeArKrXe", "FeCoNiCuZnGaGeAsSeBr", "KCaScTiVCrMn", "RbSrYZrNbMoTcRuRhPd"};
+          for (int side = 0; side < 2; side++) {
+            Op pa; pa.id = next_id++; pa.kind = OK_PARSE; pa.s = big[r.below(7)]; pa.slot = 1;
+            ops.push_back(pa);
+            st.hs.push_back({pa.id, HT_COMPOUND, false});
+            o.h[side] = pa.id;
+          }
+        }
         if (o.h[0] < 0 || o.h[1] < 0) { o.kind = OK_PARSE; o.s = gen_formula(r, 0); }
         st.hs.push_back({id, HT_COMPOUND, false});
       }
